@@ -16,6 +16,9 @@ def run(ctx):
     RR.search_chain_shape(ctx, "R06.a", parts=("order", "score", "comparator"))
     RT.postings_unconditional(ctx, "R18.g")
     RR.per_record_purity(ctx, "R06.e")
+    # the memoised empty-query ranking must be a function of the records and the limit (not of the order of adds/searches)
+    from . import r_state as RS
+    RS.memo_coherence(ctx, "R07.d")
     return info("R07.a: every comparator handed to a selection (compare_hits, the empty-query closure, the candidate closure) "
                 "is a lexicographic composition of Ord::cmp on the same integer/char projection of both arguments, hence a "
                 "total pre-order; R07.b: Record.ix / Store.next_ix are not read on the ranking path and a Hit copies only id, "
